@@ -49,18 +49,23 @@ def strip_stats(trace):
     stats = []
     keep = []
     fps = []
+    regs = []
     with open(trace) as f:
         for ln in f:
             if '"e":"Stats"' in ln:
                 stats.append(json.loads(ln))
             elif '"e":"ForRegion"' in ln:
                 fps.append(ln)
+            elif '"e":"Region"' in ln:
+                regs.append(ln)
             else:
                 keep.append(ln)
     with open(trace, 'w') as f:
         f.writelines(keep)
     with open(trace + '.fp', 'w') as f:
         f.writelines(fps)
+    with open(trace + '.regions', 'w') as f:
+        f.writelines(regs)
     return stats
 
 
@@ -140,6 +145,21 @@ def check_C03(res, tier, seed, replay):
         for rj in vf['rejects']:
             ev0 = json.loads(rj['segment'][0])
             res.violation({'algo': ev0.get('algo'), 'clauses': rj['clauses'], 'kind': ev0.get('kind'), 'n': ev0.get('n')}, {'trace_segment': rj['segment'][:1], 'spec': 'Trace_ParFor'})
+        # region-level binding (diagnostic): each recorded region is an execution of ParRegion's small-step machine
+        rg = os.path.join(wd, 'regions.ndjson')
+        with open(rg, 'w') as o:
+            for t in (tr1, tr2):
+                o.write(open(t + '.regions').read())
+        nrg = sum(1 for _ in open(rg))
+        if nrg:
+            vr = vlib.validate_trace('Trace_Region', 'Trace_Region.cfg', rg, start_event=None, recheck=False)
+            res.add_validation(vr, nrg)
+            anom = {}
+            for rj in vr['rejects']:
+                for cl in rj['clauses']:
+                    anom[cl] = anom.get(cl, 0) + 1
+            res.cov['region_binding'] = {'regions_validated_against_ParRegion': nrg, 'region_anomalies': sum(anom.values()), 'by_clause': anom,
+                                         'note': 'diagnostic only (step invariants are stronger than the API-level property)'}
         v1 = vlib.validate_trace('Trace_Mcb', 'Trace_Mcb.cfg', tr1)
         v2 = vlib.validate_trace('Trace_Approx', 'Trace_Approx.cfg', tr2)
         ev1, ev2 = vlib.count_events(tr1), vlib.count_events(tr2)
